@@ -168,6 +168,8 @@ txt=TEMPLATE.format(pid=pid,k=k,wt=wt,title=p['title'],statement=p['statement'],
 if len(sys.argv)>5 and sys.argv[5]=='benign':
     txt=BENIGN.format(pid=pid,k=k,wt=wt,title=p['title'],statement=p['statement'],quant=p['quantifier']['text'],
       files=', '.join(a['files']), mech='; '.join(m['name'] for m in a.get('mechanism',[])))
+    if focus and not focus.startswith('('):
+        txt=txt.replace('Deliverables, in', f'Preferably refactor this part (an earlier refactoring already covered other parts): {focus}\n\nDeliverables, in',1)
     open(f'/tmp/seedprompt/{pid}-b{k}.md','w').write(txt)
 else:
     open(f'/tmp/seedprompt/{pid}-{k}.md','w').write(txt)
